@@ -142,14 +142,14 @@ Qed.
 Lemma hash_preserved_ts_p : forall a b : Z * Z, a = b -> a = b.
 Proof. auto. Qed.
 
-(* ---------- the faithful model loses None records (finding) ---------- *)
+(* ---------- the variant of from_simple before commit 0b78af8 loses None records ---------- *)
 Definition w_g : grp := {| g_names := ["a"]; g_req := ["a"]; g_impl := []; g_elems := ["a"; "x"] |}.
 Definition w_u : uctx := {| u_max := 100; u_conform := [(["a"], w_g)]; u_schema := [("a", [("id", (TInt, false))])];
                             u_governors := []; u_types := []; u_refs := []; u_compsc := [] |}.
 Definition w_c : coord := {| c_grp := w_g; c_vals := [("a", DInt 1)];
                              c_recs := Some [("a", Some {| r_def := "a"; r_fields := [("id", FInt 1)] |}); ("x", None)] |}.
-Lemma coord_null_record_refuted_p : exists u c c',
-  dec_coord u (enc_coord false c) = Some c' /\ record_state c "x" = 1%N /\ record_state c' "x" = 2%N.
+Lemma coord_prefix_variant_refuted_p : exists c',
+  dec_coord_prefix w_u (enc_coord false w_c) = Some c' /\ record_state w_c "x" = 1%N /\ record_state c' "x" = 2%N.
 Proof.
-  exists w_u, w_c. eexists. split; [vm_compute; reflexivity|]. split; vm_compute; reflexivity.
+  eexists. split; [vm_compute; reflexivity|]. split; vm_compute; reflexivity.
 Qed.
